@@ -358,6 +358,9 @@ func genPDB(r *rand.Rand, c *Ctx) []PSeries {
 	var res []PSeries
 	n := 2 + r.Intn(4)
 	dayFrom, dayTo := c.FromNs/86400000000000, c.ToNs/86400000000000
+	if dayTo < dayFrom { // an inverted window (the planner accepts it): series around both bounds
+		dayFrom, dayTo = dayTo, dayFrom
+	}
 	for i := 0; i < n; i++ {
 		s := PSeries{Fp: r.Uint64(), TypeID: pick(r, typeIDs), Service: []string{"my-svc", "api", "api-gw", ""}[r.Intn(4)],
 			Stu: stus[r.Intn(len(stus))]}
